@@ -214,7 +214,9 @@ fn plan_renames_with_conflicts_and_params(
         if file_type.is_dir() && !options.rename_dirs {
             continue;
         }
-        if file_type.is_file() && !options.rename_files {
+        // Everything that is not a directory counts as a file here: a symlink is neither
+        // `is_file()` nor `is_dir()` (the walker does not follow it) and is planned as a file.
+        if !file_type.is_dir() && !options.rename_files {
             continue;
         }
 
